@@ -109,6 +109,7 @@ loop:
 			bc.lc.ShutdownInitiated(err)
 			break loop
 		case <-tick.C:
+			bc.vt("case", "c", "tick")
 			tick.Stop() // Stop the timer
 			// Start the balance check
 			balanceCheckResult = runner.Do(func() runner.Result {
@@ -116,6 +117,7 @@ loop:
 			})
 
 		case balanceCheck := <-balanceCheckResult:
+			bc.vt("case", "c", "check-result")
 			balanceCheckResult = nil
 			tick.Reset(bc.cfg.PollingPeriod) // Re-enable the timer
 			err := balanceCheck.Error()
@@ -131,6 +133,7 @@ loop:
 				withdrawAllNow = true
 			}
 		case withdrawAll := <-withdrawAllResult:
+			bc.vt("case", "c", "withdraw-result")
 
 			withdrawAllResult = nil
 			withdrawalTicker.Reset(bc.cfg.PollingPeriod) // Re-enable the timer
@@ -138,11 +141,13 @@ loop:
 				bc.log.Error("failed to started withdrawals", "err", err)
 			}
 		case <-withdrawalTicker.C:
+			bc.vt("case", "c", "withdraw-tick")
 			withdrawAllNow = true
 			withdrawalTicker.Stop()
 		}
 
 		if withdrawAllNow {
+			bc.vt("case", "c", "withdraw-start")
 			bc.log.Info("balance below target amount, withdrawing now")
 			withdrawAllResult = runner.Do(func() runner.Result {
 				return runner.NewResult(nil, bc.startWithdrawAll())
